@@ -118,6 +118,10 @@ def _strategy(draw):
         which = draw(st.sampled_from(["min_take", "max_take"]))
         c["min_take"] = c["max_take"] = None
         c[which] = [[s, e, r * total]]
+        if draw(st.booleans()):
+            # the contract's own window contains the period and reaches outside the horizon as well
+            c["start"] = min(s, 0) - draw(st.integers(0, 2))
+            c["end"] = max(e, T) + draw(st.integers(0, 2))
         spec["assets"].insert(0, c)
         extra["contract"] = "xc"
         extra["which"] = which
